@@ -48,3 +48,16 @@ func C39NextID(a *Agent) uint64 {
 // C39EnterSleep / C39ExitSleep run the agent's real sleep / wake transitions.
 func C39EnterSleep(a *Agent) error { return a.enterSleep() }
 func C39ExitSleep(a *Agent) error  { return a.exitSleep() }
+
+// C39AddAgentRoute makes the agent's routing table know `target` as reachable through peer `via`
+// (an agent presence advertisement received from `via`).
+func C39AddAgentRoute(a *Agent, via, target identity.AgentID, seq uint64) bool {
+	return a.routeMgr.ProcessAgentRouteAdvertise(via, target, seq, target, []identity.AgentID{via, target}, nil, 1)
+}
+
+// C39ForgetAgentRoutes drops every agent route learned from the given peers.
+func C39ForgetAgentRoutes(a *Agent, peers []identity.AgentID) {
+	for _, p := range peers {
+		a.routeMgr.HandlePeerDisconnectAgent(p)
+	}
+}
